@@ -4,6 +4,7 @@ import (
 	"fmt"
 	"net/http"
 	"net/url"
+	"strings"
 
 	"github.com/vicanso/elton"
 )
@@ -62,6 +63,11 @@ func suiteKey(r *rng, n int) {
 		if cr.chance(10) {
 			u1 = fmt.Sprintf("/k%d", i)
 		}
+		long := cr.chance(4)
+		if long {
+			// keys longer than any plausible index limit of a store, distinguished only at the very end
+			u1 = fmt.Sprintf("/k%d/%s?id=%d", i, strings.Repeat("segment/", 140), cr.intn(10))
+		}
 		m2, h2, u2 := m1, h1, u1
 		kind := "same"
 		switch cr.intn(10) {
@@ -82,6 +88,9 @@ func suiteKey(r *rng, n int) {
 			u2 = mutateURI(cr, u1)
 			for !validURI(u2) || u2 == u1 {
 				u2 = mutateURI(cr, u1)
+			}
+			if long {
+				u2 = u1[:len(u1)-1] + string(rune('0'+(int(u1[len(u1)-1]-'0')+1)%10)) // same but for the last digit
 			}
 		}
 		if used[m1+" "+h1+" "+u1] || (kind != "same" && used[m2+" "+h2+" "+u2]) {
